@@ -205,6 +205,17 @@ func estimateExpansion(text string) float64 {
 	equ := map[string][]string{} // name -> fields of the value
 	for _, l := range lines {
 		fs := fields(l)
+		// operators and other punctuation outside comments are tokens as well (a long run of '=' or '+' is a long
+		// run of tokens, copied with every expansion of the block it sits in)
+		code := l
+		if k := strings.IndexByte(code, ';'); k >= 0 {
+			code = code[:k]
+		}
+		for i := 0; i < len(code); i++ {
+			if ch := code[i]; ch > ' ' && !(ch >= '0' && ch <= '9' || ch >= 'a' && ch <= 'z' || ch >= 'A' && ch <= 'Z' || ch == '_' || ch == '.') {
+				toks++
+			}
+		}
 		for _, f := range fs {
 			toks++
 			if v, err := strconv.ParseFloat(f, 64); err == nil && v > maxLit {
